@@ -80,3 +80,27 @@ def validKeysFrom (clock : String) (t : Nat) (lastTime : Nat) (result : List Str
 def validKeysAt (vs : List Version) (clock : String) (t : Nat) : List String := validKeysFrom clock t 0 [] vs
 
 end GitBugModel.Identity
+
+namespace GitBugModel.Identity
+
+/-- what a commit carries as signature: nothing, or a detached signature made by some key,
+which is cryptographically good for the commit's exact content or not (`CheckDetachedSignature`
+is the environment: OpenPGP is trusted) -/
+inductive Sig where
+  | unsigned
+  | signedBy (key : String) (goodForContent : Bool)
+deriving DecidableEq, Repr
+
+inductive Verdict where
+  | accepted | signatureError
+deriving DecidableEq, Repr
+
+/-- the signature check of `readOperationPack` for a commit at edit time `t` by author `vs` -/
+def checkCommit (vs : List Version) (clock : String) (t : Nat) (sig : Sig) : Verdict :=
+  let keys := validKeysAt vs clock t
+  if keys.isEmpty then .accepted
+  else match sig with
+    | .unsigned => .signatureError
+    | .signedBy k good => if keys.contains k && good then .accepted else .signatureError
+
+end GitBugModel.Identity
